@@ -288,9 +288,10 @@ def fan_case(draw, sizes=(14, 20, 28)):
     pkgs = draw(st.sampled_from(PKG_SETS))
     tasks = [{"pkg": 0, "name": "all0", "kind": "group", "deps": []}]
     oc = {}
+    slot_mode = draw(st.sampled_from([False, False, True]))   # the same in parallel slots (outputs logged straight to files)
     for i in range(1, n + 1):
         tasks.append({"pkg": draw(st.sampled_from(range(len(pkgs)))), "name": "e%d" % i,
-                      "kind": draw(st.sampled_from(["exp", "exp", "exp", "cmd"])), "deps": [], "par": False})
+                      "kind": draw(st.sampled_from(["exp", "exp", "exp", "cmd"])), "deps": [], "par": slot_mode})
         if draw(st.sampled_from(range(8))) != 0:
             oc[str(i)] = draw(st.sampled_from([{"exit": 10 + i % 200}, {"exit": 10 + i % 200}, {"signal": 9}]))
     # a few healthy tasks that are listed (hence started) last
@@ -298,7 +299,8 @@ def fan_case(draw, sizes=(14, 20, 28)):
         tasks.append({"pkg": 0, "name": "ok%d" % j, "kind": "exp", "deps": [], "par": False})
     order = list(range(1, len(tasks)))
     tasks[0]["deps"] = [[i, "abs"] for i in order]
-    return {"pkgs": pkgs, "tasks": tasks, "target": 0, "seeded": {}, "jobs": draw(st.sampled_from([None, 1])),
+    return {"pkgs": pkgs, "tasks": tasks, "target": 0, "seeded": {},
+            "jobs": draw(st.sampled_from([2, 3])) if slot_mode else draw(st.sampled_from([None, 1])),
             "flags": [], "outcomes": oc, "tape": [], "foreign": 0, "fdlimit": draw(st.sampled_from([24, 32, 40]))}
 
 
